@@ -5,26 +5,26 @@ import TlxVerif.Proofs.C08Loops
 namespace TlxVerif.C08
 
 /-- `lm` is a (value, sequence)-maximal left edge among the sequences `S` -/
-def LmaxOn (c : Ctx) (ab : AB) (S : List Nat) : Option Sample → Prop
+def LmaxOn (c : Ctx) (r : Routine) (ab : AB) (S : List Nat) : Option Sample → Prop
   | none => ∀ i ∈ S, A ab i ≤ 0
   | some (v, s) => s ∈ S ∧ 0 < A ab s ∧ v = valAt c s (A ab s - 1) ∧
-      ∀ i ∈ S, 0 < A ab i → Le c.lt (valAt c i (A ab i - 1)) i v s
+      ∀ i ∈ S, 0 < A ab i → LeR c.lt r (valAt c i (A ab i - 1)) i v s
 
-theorem scanLmax_spec {c : Ctx} (hg : Good c) {ab : AB}
+theorem scanLmax_spec {c : Ctx} (hg : Good c) (r : Routine) {ab : AB}
     (hb : ∀ i, i < c.runs.size → A ab i ≤ lenAt c i) :
     ∀ (is done : List Nat) (acc : Option Sample), (∀ i ∈ is, i < c.runs.size) →
-      (∀ d ∈ done, ∀ i ∈ is, d < i) → is.Pairwise (· < ·) → LmaxOn c ab done acc →
-      Spec (scanLmax c .partition ab.a is acc) (LmaxOn c ab (done ++ is))
+      (∀ d ∈ done, ∀ i ∈ is, d < i) → is.Pairwise (· < ·) → LmaxOn c r ab done acc →
+      Spec (scanLmax c r ab.a is acc) (LmaxOn c r ab (done ++ is))
   | [], done, acc, _, _, _, hacc => by
     rw [scanLmax]
     exact Spec.pure (by simpa using hacc)
   | i :: is, done, acc, hlt_m, hdone, hpw, hacc => by
     have hi : i < c.runs.size := hlt_m i List.mem_cons_self
     have hpw' := List.pairwise_cons.mp hpw
-    have hrec : ∀ acc', LmaxOn c ab (done ++ [i]) acc' →
-        Spec (scanLmax c .partition ab.a is acc') (LmaxOn c ab (done ++ i :: is)) := by
+    have hrec : ∀ acc', LmaxOn c r ab (done ++ [i]) acc' →
+        Spec (scanLmax c r ab.a is acc') (LmaxOn c r ab (done ++ i :: is)) := by
       intro acc' h'
-      have := scanLmax_spec hg hb is (done ++ [i]) acc' (fun j hj => hlt_m j (List.mem_cons_of_mem _ hj))
+      have := scanLmax_spec hg r hb is (done ++ [i]) acc' (fun j hj => hlt_m j (List.mem_cons_of_mem _ hj))
         (by
           intro d hd j hj
           rcases List.mem_append.mp hd with hd | hd
@@ -46,41 +46,33 @@ theorem scanLmax_spec {c : Ctx} (hg : Good c) {ab : AB}
         intro k hk hkp
         rcases List.mem_append.mp hk with hk | hk
         · have := hacc k hk; omega
-        · simp at hk; subst hk; exact Le.refl hg.hlt _ _
+        · simp at hk; subst hk; exact LeR.refl hg.hlt r _ _
       | some p =>
         obtain ⟨v, s⟩ := p
         obtain ⟨hs, hsp, hv, hmax⟩ := hacc
         have hsi : s < i := hdone s hs i List.mem_cons_self
         simp only []
-        by_cases htake : takesMax c.lt .partition (valAt c i (aget ab.a i - 1)) v = true
+        have hts := takesMax_spec hg.hlt r (x := valAt c i (aget ab.a i - 1)) (v := v) hsi
+        by_cases htake : takesMax c.lt r (valAt c i (aget ab.a i - 1)) v = true
         · rw [if_pos htake]
           refine Spec.bind hrd ?_
           intro x' hx'
           subst hx'
           apply hrec
-          have hnl : c.lt (valAt c i (aget ab.a i - 1)) v = false := by simpa [takesMax] using htake
-          have hle : Le c.lt v s (valAt c i (aget ab.a i - 1)) i := by
-            intro hbf
-            rcases hbf with hbf | ⟨_, hbf⟩
-            · rw [hnl] at hbf; cases hbf
-            · omega
+          have hle := hts.1 htake
           refine ⟨by simp, hpos, rfl, ?_⟩
           intro k hk hkp
           rcases List.mem_append.mp hk with hk | hk
-          · exact Le.trans hg.hlt (hmax k hk hkp) hle
-          · simp at hk; subst hk; exact Le.refl hg.hlt _ _
+          · exact LeR.trans hg.hlt (hmax k hk hkp) hle
+          · simp at hk; subst hk; exact LeR.refl hg.hlt r _ _
         · rw [if_neg htake]
           apply hrec
-          have hl : c.lt (valAt c i (aget ab.a i - 1)) v = true := by simpa [takesMax] using htake
+          have hle := hts.2 (by simpa using htake)
           refine ⟨List.mem_append_left _ hs, hsp, hv, ?_⟩
           intro k hk hkp
           rcases List.mem_append.mp hk with hk | hk
           · exact hmax k hk hkp
-          · simp at hk; subst hk
-            intro hbf
-            rcases hbf with hbf | ⟨hbf, _⟩
-            · rw [hg.hlt.asymm _ _ hl] at hbf; cases hbf
-            · rw [hl] at hbf; cases hbf
+          · simp at hk; subst hk; exact hle
     · rw [if_neg hpos]
       apply hrec
       cases acc with
@@ -100,8 +92,8 @@ theorem scanLmax_spec {c : Ctx} (hg : Good c) {ab : AB}
 
 /-! ### classify -/
 
-theorem lmaxSpec_of_on {c : Ctx} {ab : AB} {lm : Option Sample} (h : LmaxOn c ab (List.range c.runs.size) lm) :
-    LmaxSpec c ab lm := by
+theorem lmaxSpec_of_on {c : Ctx} {r : Routine} {ab : AB} {lm : Option Sample}
+    (h : LmaxOn c r ab (List.range c.runs.size) lm) : LmaxSpec c r ab lm := by
   cases lm with
   | none => intro i hi; exact h i (List.mem_range.mpr hi)
   | some p =>
@@ -111,26 +103,26 @@ theorem lmaxSpec_of_on {c : Ctx} {ab : AB} {lm : Option Sample} (h : LmaxOn c ab
 
 open Classical in
 /-- the target value of `a[i]` / `b[i]` after the classification loop -/
-noncomputable def clsA (c : Ctx) (n' : Nat) (ab0 : AB) (lm : Option Sample) (i : Nat) : Int :=
-  if LeftCond c n' ab0 lm i then A ab0 i + n' + 1 else A ab0 i
+noncomputable def clsA (c : Ctx) (r : Routine) (n' : Nat) (ab0 : AB) (lm : Option Sample) (i : Nat) : Int :=
+  if LeftCond c r n' ab0 lm i then A ab0 i + n' + 1 else A ab0 i
 
 open Classical in
-noncomputable def clsB (c : Ctx) (n' : Nat) (ab0 : AB) (lm : Option Sample) (i : Nat) : Int :=
-  if LeftCond c n' ab0 lm i then B ab0 i else B ab0 i - (n' + 1)
+noncomputable def clsB (c : Ctx) (r : Routine) (n' : Nat) (ab0 : AB) (lm : Option Sample) (i : Nat) : Int :=
+  if LeftCond c r n' ab0 lm i then B ab0 i else B ab0 i - (n' + 1)
 
 /-- result of the classification loop over `is`: the entries of `is` are classified, all others untouched -/
-def ClsPost (c : Ctx) (n' : Nat) (ab0 : AB) (lm : Option Sample) (is : List Nat) (ab ab' : AB) : Prop :=
+def ClsPost (c : Ctx) (r : Routine) (n' : Nat) (ab0 : AB) (lm : Option Sample) (is : List Nat) (ab ab' : AB) : Prop :=
   ab'.a.size = c.runs.size ∧ ab'.b.size = c.runs.size ∧
   ∀ i, i < c.runs.size →
-    (i ∈ is → A ab' i = clsA c n' ab0 lm i ∧ B ab' i = clsB c n' ab0 lm i) ∧
+    (i ∈ is → A ab' i = clsA c r n' ab0 lm i ∧ B ab' i = clsB c r n' ab0 lm i) ∧
     (i ∉ is → A ab' i = A ab i ∧ B ab' i = B ab i)
 
-theorem classify_spec {c : Ctx} (hg : Good c) {n n' : Nat} (hn : n = 2 * n' + 1) {ab0 : AB} (hinv : Inv c n ab0)
-    (lm : Option Sample) :
+theorem classify_spec {c : Ctx} (hg : Good c) {r : Routine} {n n' : Nat} (hn : n = 2 * n' + 1) {ab0 : AB}
+    (hinv : Inv c r n ab0) (lm : Option Sample) :
     ∀ (is : List Nat) (ab : AB), is.Nodup → (∀ i ∈ is, i < c.runs.size) →
       ab.a.size = c.runs.size → ab.b.size = c.runs.size →
       (∀ i ∈ is, A ab i = A ab0 i ∧ B ab i = B ab0 i) →
-      Spec (classify c .partition (seqlenOf c) lm n' is ab) (ClsPost c n' ab0 lm is ab)
+      Spec (classify c r (seqlenOf c) lm n' is ab) (ClsPost c r n' ab0 lm is ab)
   | [], ab, _, _, hsa, hsb, _ => by
     rw [classify]
     exact Spec.pure ⟨hsa, hsb, fun i _ => ⟨fun h => (List.not_mem_nil h).elim, fun _ => ⟨rfl, rfl⟩⟩⟩
@@ -145,9 +137,9 @@ theorem classify_spec {c : Ctx} (hg : Good c) {n n' : Nat} (hn : n = 2 * n' + 1)
     have hsl : aget (seqlenOf c) i = lenAt c i := aget_seqlenOf c hi
     -- common continuation: after updating entry i (to the classified values) recurse on `is`
     have hrec : ∀ ab1 : AB, ab1.a.size = c.runs.size → ab1.b.size = c.runs.size →
-        A ab1 i = clsA c n' ab0 lm i → B ab1 i = clsB c n' ab0 lm i →
+        A ab1 i = clsA c r n' ab0 lm i → B ab1 i = clsB c r n' ab0 lm i →
         (∀ j, j ≠ i → A ab1 j = A ab j ∧ B ab1 j = B ab j) →
-        Spec (classify c .partition (seqlenOf c) lm n' is ab1) (ClsPost c n' ab0 lm (i :: is) ab) := by
+        Spec (classify c r (seqlenOf c) lm n' is ab1) (ClsPost c r n' ab0 lm (i :: is) ab) := by
       intro ab1 hs1 hs2 ha1 hb1 hoth
       have := classify_spec hg hn hinv lm is ab1 hnd'.2 (fun j hj => hlt_m j (List.mem_cons_of_mem _ hj)) hs1 hs2
         (by
@@ -175,9 +167,9 @@ theorem classify_spec {c : Ctx} (hg : Good c) {n n' : Nat} (hn : n = 2 * n' + 1)
         have h2 := hoth j hji
         exact ⟨this.1.trans h2.1, this.2.trans h2.2⟩
     -- the two possible updates of entry i
-    have hright : ¬ LeftCond c n' ab0 lm i →
-        Spec (classify c .partition (seqlenOf c) lm n' is ⟨ab.a, aset ab.b i (aget ab.b i - (n' + 1))⟩)
-          (ClsPost c n' ab0 lm (i :: is) ab) := by
+    have hright : ¬ LeftCond c r n' ab0 lm i →
+        Spec (classify c r (seqlenOf c) lm n' is ⟨ab.a, aset ab.b i (aget ab.b i - (n' + 1))⟩)
+          (ClsPost c r n' ab0 lm (i :: is) ab) := by
       intro hc
       apply hrec
       · exact hsa
@@ -201,9 +193,9 @@ theorem classify_spec {c : Ctx} (hg : Good c) {n n' : Nat} (hn : n = 2 * n' + 1)
         refine Spec.bind (Spec.rd c hi (by omega) hlen) ?_
         intro x hx
         subst hx
-        by_cases hl : lcomp c.lt (valAt c i (aget ab0.a i + ↑n'), i) (lv, ls) = true
+        by_cases hl : leftTest c.lt r (valAt c i (aget ab0.a i + ↑n')) i lv ls = true
         · rw [if_pos hl]
-          have hc : LeftCond c n' ab0 (some (lv, ls)) i := ⟨hlen, (lcomp_iff_before' _ _ _ _ _).mp hl⟩
+          have hc : LeftCond c r n' ab0 (some (lv, ls)) i := ⟨hlen, (leftTest_iff _ _ _ _ _ _).mp hl⟩
           apply hrec
           · rw [size_aset]; exact hsa
           · exact hsb
@@ -215,7 +207,7 @@ theorem classify_spec {c : Ctx} (hg : Good c) {n n' : Nat} (hn : n = 2 * n' + 1)
           · intro j hji
             exact ⟨aget_aset_ne _ (Ne.symm hji), rfl⟩
         · rw [if_neg hl]
-          exact hright (fun hc => hl ((lcomp_iff_before' _ _ _ _ _).mpr hc.2))
+          exact hright (fun hc => hl ((leftTest_iff _ _ _ _ _ _).mpr hc.2))
       · rw [if_neg hlen]
         exact hright (fun hc => hlen hc.1)
 
